@@ -897,11 +897,12 @@ impl SetU32 {
                     !present
                 } else {
                     // println!("key is {}", key);
-                    if key > 64 * (*sz as usize) {
-                        // It is getting sparse, so let us switch back
-                        // to a non-hash table.
+                    if (e >> 5) as usize > *sz as usize {
+                        // It is getting sparse (the same criterion as in
+                        // `with_capacity_and_max`), so let us switch back
+                        // to a hash table.
                         let cap = 1 + 2 * (*sz as usize);
-                        let mut new = SetU32::with_capacity_and_bits(cap, 0);
+                        let mut new = SetU32::with_capacity_and_bits(cap, compute_array_bits(e));
                         for x in self.iter() {
                             new.insert(x);
                         }
